@@ -14,7 +14,8 @@ import tempfile
 M = [
     # (property, name, file, old, new, extra check args)
     ("C03", "no-restore-on-valueerror", "dateparser/date.py", "        except ValueError:\n            self._settings.DATE_ORDER = _order\n            return None", "        except ValueError:\n            return None", []),
-    ("C03", "skip-tokens-not-in-settings-key", "dateparser/conf.py", 'keys = sorted(["%s-%s" % (key, str(settings[key])) for key in settings])', 'keys = sorted(["%s-%s" % (key, str(settings[key])) for key in settings if key != "SKIP_TOKENS"])', []),
+    # ("skip-tokens-not-in-settings-key" was tried and dropped: the registry object is re-initialised on every entry and
+    #  Dictionary.__contains__ reads SKIP_TOKENS live, so no API-visible difference could be constructed -- apparently equivalent)
     ("C03", "cache-key-without-locale-name", "dateparser/languages/dictionary.py", '        cache.setdefault(self._settings.registry_key, {})[self.info["name"]] = value', '        cache.setdefault(self._settings.registry_key, {})[self.info["name"][:2]] = value', []),
     ("C03", "loader-without-deepcopy", "dateparser/languages/loader.py", "locale = Locale(shortname, language_info=deepcopy(language_info))", "locale = Locale(shortname, language_info=language_info)", []),
     ("C03", "evict-first-key-again", "dateparser/languages/dictionary.py", "                if key != self._settings.registry_key:\n", "                if True:\n", []),
